@@ -1,0 +1,71 @@
+//go:build verif
+
+package build
+
+import (
+	"go/ast"
+	"go/build"
+	"go/token"
+	"sort"
+)
+
+// VerifC12Override is the exported view of one entry of the overrides map
+// built by augmentOverlayFile.
+type VerifC12Override struct {
+	Key               string
+	KeepOriginal      bool
+	PurgeMethods      bool
+	OverrideSignature *ast.FuncDecl
+}
+
+// VerifC12Augment runs the overlay/original augmentation on already parsed
+// files in exactly the order parseAndAugment does and returns the merged file
+// list (overlays first) together with the overrides table (sorted by key).
+func VerifC12Augment(importPath string, overlayFiles, originalFiles []*ast.File) ([]*ast.File, []VerifC12Override) {
+	overrides := make(map[string]overrideInfo)
+	for _, file := range overlayFiles {
+		augmentOverlayFile(file, overrides)
+	}
+	delete(overrides, "init")
+
+	for _, file := range originalFiles {
+		augmentOriginalImports(importPath, file)
+	}
+
+	if len(overrides) > 0 {
+		for _, file := range originalFiles {
+			augmentOriginalFile(file, overrides)
+		}
+	}
+
+	table := make([]VerifC12Override, 0, len(overrides))
+	for k, v := range overrides {
+		table = append(table, VerifC12Override{
+			Key:               k,
+			KeepOriginal:      v.keepOriginal,
+			PurgeMethods:      v.purgeMethods,
+			OverrideSignature: v.overrideSignature,
+		})
+	}
+	sort.Slice(table, func(i, j int) bool { return table[i].Key < table[j].Key })
+	return append(overlayFiles, originalFiles...), table
+}
+
+// VerifC12PruneImports exposes pruneImports (preceded by finalizeRemovals, as
+// every caller in this package does) for direct runs on a single file.
+func VerifC12PruneImports(file *ast.File) {
+	finalizeRemovals(file)
+	pruneImports(file)
+}
+
+// VerifC12ParseAndAugment calls the real parseAndAugment for a package whose original
+// sources are the given files of dir (overlays come from the natives of importPath).
+func VerifC12ParseAndAugment(xctx XContext, importPath, dir string, goFiles []string, isTest bool, fileSet *token.FileSet) ([]*ast.File, error) {
+	bctx := build.Default
+	pkg := &PackageData{
+		Package: &build.Package{ImportPath: importPath, Dir: dir, GoFiles: goFiles},
+		bctx:    &bctx,
+	}
+	files, _, err := parseAndAugment(xctx, pkg, isTest, fileSet)
+	return files, err
+}
